@@ -390,7 +390,13 @@ func (s *BufferedPaginatedStore) MergeWith(other Store) {
 		}
 
 		// Merge buffers.
-		for _, index := range o.buffer {
+		buffer := o.buffer
+		if o == s {
+			// Merging the store into itself: adding may sort and compact the
+			// buffer that is being iterated over.
+			buffer = append([]int(nil), o.buffer...)
+		}
+		for _, index := range buffer {
 			s.Add(index)
 		}
 	} else {
